@@ -22,6 +22,7 @@ func main() {
 	stop := flag.String("stop", "", "comma-separated callee names kept as calls")
 	defers := flag.Bool("defers", false, "make deferred calls explicit before every return")
 	all := flag.Bool("all", false, "expand every function and build its graph (smoke test)")
+	check := flag.String("check", "", "print how the outcome of calls to this callee is tested (CheckOf)")
 	flag.Parse()
 	stops := map[string]bool{}
 	for _, n := range strings.Split(*stop, ",") {
@@ -55,6 +56,20 @@ func main() {
 		v := f
 		if !*norm {
 			v = p.Expand(f, opt)
+		}
+		if *check != "" {
+			for _, c := range v.Calls(true) {
+				if c.Fn != nil && c.Fn.Name() == *check {
+					chk := v.CheckOf(c.Expr)
+					fmt.Printf("// CheckOf %s at %s: succ=%d fail=%d\n", *check, p.Pos(c.Pos()), len(chk.Succ), len(chk.Fail))
+					for _, e := range chk.Succ {
+						fmt.Printf("//   succ edge: %s [%s] from %s\n", e.Kind, ir.ExprString(e.Cond), p.Pos(e.From.Pos()))
+					}
+					for _, e := range chk.Fail {
+						fmt.Printf("//   fail edge: %s [%s] from %s\n", e.Kind, ir.ExprString(e.Cond), p.Pos(e.From.Pos()))
+					}
+				}
+			}
 		}
 		// strip positions so the printer lays the code out afresh
 		stripPos(v.Body)
